@@ -46,17 +46,23 @@ type finding struct {
 }
 
 type result struct {
-	Findings  []finding
-	Obs       []string // "<read path>|<outcome class>" observed on the altered txs
-	Hung      bool
-	HangClass string // suspected | deadlock: ... | still-running | allocation-bound
-	Step      string
-	Stacks    string
-	Err       string // harness-side problem
-	Index     string // caught-up | lagging | wait-timeout | not-reached
-	Changed   int    // bytes that really differ from the pristine store
-	Millis    int64  // diagnostic only
+	Findings    []finding
+	Obs         []string // "<read path>|<outcome class>" observed on the altered txs
+	Hung        bool
+	HangClass   string // suspected | deadlock: ... | still-running | allocation-bound
+	Step        string
+	Stacks      string
+	Err         string // harness-side problem
+	Index       string // caught-up | lagging | wait-timeout | not-reached
+	Changed     int    // bytes that really differ from the pristine store
+	Millis      int64  // diagnostic only
+	HugeSkipped int
 }
+
+// hugeLen: calls that would make immudb allocate more than this from a corrupted length are not made
+// (counted): on a loaded machine clearing hundreds of megabytes per call turns cases into suspected hangs,
+// and memory is judged by C16, not here. Lengths up to 16 MiB (4000 times the largest value) are exercised.
+const hugeLen = 16 << 20
 
 type checker struct {
 	g     *groundTruth
@@ -76,6 +82,10 @@ func (k *checker) setStep(s string) { k.mu.Lock(); k.step = s; k.mu.Unlock() }
 func (k *checker) getStep() string  { k.mu.Lock(); defer k.mu.Unlock(); return k.step }
 
 func (k *checker) find(sig, f string, a ...any) {
+	// a whole well-formed record sitting at another tx's place is one situation, whatever read path shows it
+	if k.cs.Kind == "splice" && (k.cs.Field == "record" || k.cs.Field == "record-swap") && !strings.Contains(sig, "-after-splice") && !strings.Contains(sig, ".") {
+		sig += "-after-record-splice"
+	}
 	if k.sigs[sig] {
 		return
 	}
@@ -350,7 +360,12 @@ func (k *checker) run() {
 			for i, e := range tx.Entries() {
 				var v []byte
 				var verr error
-				if e.VLen() > 32<<20 {
+				if e.VLen() > hugeLen {
+					k.res.HugeSkipped++
+					k.observe(id, "readvalue", "not-called(length-over-16MiB)")
+					continue
+				}
+				if e.VLen() > 4<<20 {
 					k.big = true
 				}
 				k.call("readvalue", func() { v, verr = st.ReadValue(e) })
@@ -414,6 +429,17 @@ func (k *checker) run() {
 		}
 		// ExportTx
 		var xb []byte
+		if readOK {
+			huge := false
+			for _, e := range tx.Entries() {
+				huge = huge || e.VLen() > hugeLen
+			}
+			if huge {
+				k.res.HugeSkipped++
+				k.observe(id, "exporttx", "not-called(length-over-16MiB)")
+				continue
+			}
+		}
 		k.call("exporttx", func() { xb, rerr = st.ExportTx(id, false, false, tx2) })
 		if k.abort {
 			return
@@ -480,7 +506,11 @@ func (k *checker) run() {
 				}
 				if d := k.txDiff(rt, id); d != "" {
 					k.observe(id, path, "DIFFERENT:"+d)
-					k.find(path+"/"+k.spliceSuffix(d), "TxReader (start %d) returned at position %d without error a tx that differs from the committed one (%s; header id %d) [%s]", start, id, d, rt.Header().ID, k.cs.Note)
+					if id != start {
+						// not the first tx of the iteration: the reader had the previous tx's alh to compare with
+						d += "-mid-iteration"
+					}
+					k.find(path+"/"+k.spliceSuffix(strings.TrimSuffix(d, "-mid-iteration"))+strings.TrimPrefix(d, strings.TrimSuffix(d, "-mid-iteration")), "TxReader (start %d) returned at position %d without error a tx that differs from the committed one (%s; header id %d) [%s]", start, id, d, rt.Header().ID, k.cs.Note)
 					break
 				}
 				k.observe(id, path, "identical")
@@ -626,10 +656,12 @@ func (k *checker) index(st *store.ImmuStore, lg *idxLogger) {
 			k.find(path+"/txmetadata-differs", "%s(%q) returned for tx %d tx metadata %x, committed %x [%s]", path, key, id, txmd, t.TxMD, k.cs.Note)
 			return false
 		}
-		if ref.Len() > 32<<20 {
-			if k.big && path == "history-after-reindex" {
-				return true // a gigabyte-sized Resolve was exercised already in this case (memory is not what is judged)
-			}
+		if ref.Len() > hugeLen {
+			k.res.HugeSkipped++
+			k.observe(id, path+"+resolve", "not-called(length-over-16MiB)")
+			return true
+		}
+		if ref.Len() > 4<<20 {
 			k.big = true
 		}
 		var v []byte
@@ -640,7 +672,11 @@ func (k *checker) index(st *store.ImmuStore, lg *idxLogger) {
 		}
 		switch {
 		case verr != nil:
-			k.observe(id, path+"+resolve", errClass(verr))
+			o := errClass(verr)
+			if t.ReadValErr[i] != "" && errors.Is(verr, store.ErrExpiredEntry) {
+				o = "identical(" + o + ")" // the pristine store withholds this (expired) value too
+			}
+			k.observe(id, path+"+resolve", o)
 		case bytes.Equal(v, w.Value):
 			k.observe(id, path+"+resolve", "identical")
 		case ref.Len() == 0 && len(v) == 0:
@@ -703,6 +739,9 @@ func (k *checker) index(st *store.ImmuStore, lg *idxLogger) {
 		}
 		if err != nil {
 			o := errClass(err)
+			if err.Error() == gk.HistErr {
+				o = "identical(" + o + ")"
+			}
 			if caughtUp && gk.HistErr == "" {
 				k.observe(last, "history-after-reindex", "DIFFERENT:error-on-caught-up-index")
 				if errors.Is(err, store.ErrKeyNotFound) {
@@ -918,6 +957,18 @@ func deadlocked(d1, d2 string) string {
 	c1, a1 := parseStacks(d1)
 	c2, a2 := parseStacks(d2)
 	if c1 == nil || c2 == nil || !blockedState(c1.state) || c1.state != c2.state || topFrames(c1.body, 8) != topFrames(c2.body, 8) {
+		return ""
+	}
+	// the wait must be inside immudb (the monitor's own bounded waits do not count)
+	inImmudb := false
+	for _, fr := range strings.Split(topFrames(c1.body, 12), " < ") {
+		if strings.HasPrefix(fr, "runtime.") || strings.HasPrefix(fr, "sync.") || strings.HasPrefix(fr, "internal/") || strings.HasPrefix(fr, "time.") || strings.HasPrefix(fr, "context.") {
+			continue
+		}
+		inImmudb = strings.HasPrefix(fr, "github.com/codenotary/immudb/")
+		break
+	}
+	if !inImmudb {
 		return ""
 	}
 	for _, a := range [][]gor{a1, a2} {
